@@ -790,6 +790,9 @@ def make_twin(env, case):
     try:
         tw = build_env(case)
         tw.model.load_state_dict(env.model.state_dict())
+        for p_, q_ in zip(tw.params, env.params):
+            p_.requires_grad_(bool(q_.requires_grad))
+        tw.rg = list(env.rg)
         tw.opt.load_state_dict(env.opt.state_dict())
         if hasattr(env.opt, "loss"):
             tw.opt.loss = env.opt.loss.clone()
@@ -901,6 +904,17 @@ def _check_case_gen(ctx: Ctx, case, pending):
         for key, val in (call.get("pg_edit") or {}).items():
             pg[key] = val
         ecase = setup_call(env, ci)
+        if call.get("rg_edit"):
+            # the caller freezes / unfreezes parameters after construction and between steps (requires_grad_ is public API):
+            # every step must use the flags as they are NOW
+            leaf_to_param, ip_ = {}, 0
+            for li_, lf_ in enumerate(case["leaves"]):
+                if lf_["role"] == "param":
+                    leaf_to_param[li_] = ip_; ip_ += 1
+            for k_, flag_ in call["rg_edit"].items():
+                env.params[leaf_to_param[int(k_)]].requires_grad_(bool(flag_))
+            env.rg = [bool(p_.requires_grad) for p_ in env.params]
+            ctx.count("reuse.requires_grad-toggled")
         if call.get("param_edit"):
             apply_param_edit(env, call["param_edit"])
             ctx.count("reuse.param-edited-in-place")
@@ -914,6 +928,7 @@ def _check_case_gen(ctx: Ctx, case, pending):
             ctx.count("reuse.inputs-updated-in-place")
         if call.get("inputs") or "targets" in call or "weight_step" in call:
             ctx.count("reuse.per-call-data-changed")
+        n_frozen = sum(1 for p_, r_ in zip(env.params, env.rg) if not r_ and raw(p_).numel() > 0)
         before = [raw(p).clone() for p in env.params]
         shapes, outs0 = residual_shapes(env)
         nres = len(shapes)
@@ -1263,6 +1278,19 @@ def _check_case_gen(ctx: Ctx, case, pending):
                     # cancellation noise of both the backward passes and the finite differences grows with the magnitudes
                     # that meet inside the program (translations 1e3 in X·X^-1 leave 1e3·1e3·eps), not with the output
                     vmag = max([float(p_.abs().max()) for p_ in before if p_.numel()] + [float(raw(t_).abs().max()) for t_ in env.ins if raw(t_).numel()] + [0.0])
+                    # a rotation below ~1e-2 rad anywhere in the program: the forward pass loses eps/theta^2 in its closed-form
+                    # coefficients once the finite-difference step has moved theta to ~h, i.e. the finite differences (not the
+                    # Jacobian) carry an error ~ eps·|values|/h^2
+                    tiny_rot = False
+                    for lf_, t_ in ([(lf__, p__) for lf__, p__ in zip([l_ for l_ in ecase["leaves"] if l_["role"] == "param"], before)]
+                                    + [(lf__, raw(x__)) for lf__, x__ in zip([l_ for l_ in ecase["leaves"] if l_["role"] == "input"], env.ins)]):
+                        ty_ = lf_["ty"]
+                        if ty_[0] == "A" and t_.numel():
+                            tiny_rot = tiny_rot or bool((t_.double()[..., U.PHISL[ty_[1]]].norm(dim=-1) < 1e-2).any())
+                        elif ty_[0] == "G" and t_.numel():
+                            q_ = t_.double()[..., U.QSL[ty_[1]]]
+                            tiny_rot = tiny_rot or bool((2 * torch.atan2(q_[..., :3].norm(dim=-1), q_[..., 3].abs()) < 1e-2).any())
+                    fd_noise = (4 * 2.2e-16 / 1e-10) * (1.0 + vmag) if tiny_rot else 0.0
                     lim = torch.zeros_like(err)
                     r0 = 0
                     for i_ in range(nres):
@@ -1272,9 +1300,21 @@ def _check_case_gen(ctx: Ctx, case, pending):
                         for pi in jac_params:
                             c1 = c0 + numels[pi]
                             bsc = float(Jfd[r0:r1, c0:c1].abs().max()) if (r1 > r0 and c1 > c0) else 0.0
-                            lim[r0:r1, c0:c1] = (tolj * gsc) if f32 else (tolj * bsc + 1e-9 * (1.0 + omag) + 1e-11 * (1.0 + vmag) ** 2)
+                            lim[r0:r1, c0:c1] = (tolj * gsc) if f32 else (tolj * bsc + 1e-9 * (1.0 + omag) + 1e-11 * (1.0 + vmag) ** 2 + fd_noise)
                             c0 = c1
                         r0 = r1
+                    if bool((err > lim).any()):
+                        # re-judge with Richardson extrapolation on every column before calling it a failure
+                        try:
+                            Jfd2, rel2 = G.fd_jacobian(ecase, before, full=True)
+                            Jfd2 = Jfd2[:, cols]
+                        except Exception:
+                            Jfd2, rel2 = None, 1.0
+                        if Jfd2 is None or rel2 >= 1e-7:
+                            ctx.count("jac.fd-unreliable")
+                            err = torch.zeros_like(err)
+                        else:
+                            err = (Jobs - Jfd2).abs()
                     if bool((err > lim).any()):
                         ratio = err / lim
                         ij = (ratio == ratio.max()).nonzero()[0].tolist()
@@ -1492,6 +1532,15 @@ def _check_case_gen(ctx: Ctx, case, pending):
                 return   # (cannot happen after a successful step)
             ref, used = indep_update(env, p_before, Dk)
             fmax = float(torch.finfo(env.D).max)
+            off_ = 0
+            for (kind_, g_, n_, sd_, td_), rg_ in zip(env.layout, env.rg):
+                if not rg_:
+                    continue
+                if kind_ == "G" and U.SIGIDX[g_] is not None and n_:
+                    if float(Dk[off_: off_ + n_ * sd_].reshape(n_, sd_)[:, U.SIGIDX[g_]].abs().max()) > 0.9 * math.log(fmax):
+                        ctx.count("degenerate.update-overflow")     # exp(sigma) alone leaves the dtype's range
+                        return
+                off_ += n_ * sd_
             if any((not bool(torch.isfinite(r_).all())) or (r_.numel() and float(r_.abs().max()) > 1e-3 * fmax) for r_ in ref) \
                     or any(float(x_.abs().max()) > 1e-3 * fmax for x_ in p_before if x_.numel()):
                 ctx.count("degenerate.update-overflow")     # the exact result leaves the dtype's range (e.g. exp(sigma) in float32)
@@ -1958,6 +2007,7 @@ def make_case(rng, **force):
     # calls
     ncalls = force.get("ncalls", rng.choice([1, 1, 2, 2, 3]))
     calls = []
+    rg_state = {}
     cur_case, cur_shapes = case, shapes
     for ci in range(ncalls):
         call = {}
@@ -2049,6 +2099,14 @@ def make_case(rng, **force):
                     if any(e_ is not None for e_ in edits):
                         call["ctor_weight_edit"] = edits
                 cur_case, cur_shapes = trial, shapes_c
+        if nP >= 2 and rng.random() < force.get("rgedit", 0.12):
+            pl_ = [li_ for li_, lf_ in enumerate(case["leaves"]) if lf_["role"] == "param"]
+            li_ = rng.choice(pl_)
+            cur_ = rg_state.get(li_, case["leaves"][li_]["rg"])
+            others_ = [rg_state.get(x_, case["leaves"][x_]["rg"]) for x_ in pl_ if x_ != li_]
+            if (not cur_) or any(others_):          # keep at least one trainable parameter
+                rg_state[li_] = not cur_
+                call["rg_edit"] = {str(li_): (not cur_)}
         if ci > 0 and rng.random() < force.get("pedit", 0.3):
             pe = param_edit_for(rng, case)
             if pe is not None:
@@ -2727,6 +2785,15 @@ def corner_cases():
         for opt in ("GN", "LM"):
             c = make_case(rng, opt=opt, ncalls=2, nbad=0, kmode="none", **{**q4, "poison": 1.0})
             c["poison"] = pm
+            out.append(c)
+    # requires_grad toggled after construction and between steps, both directions (round-4 seed: trainable mask cached at construction)
+    for opt in ("GN", "LM"):
+        for start_frozen in (False, True):
+            c = make_case(rng, opt=opt, ptypes=[["G", "SE3"], ["E", 3], ["A", "SO3"]], frozen=[False, start_frozen, False], nres=2,
+                          ncalls=3, nbad=1, vary=0.0, pedit=0.0, **{**q4, "rgedit": 0.0})
+            c["calls"][0]["rg_edit"] = {"1": start_frozen}            # toggled between construction and the first step
+            c["calls"][1]["rg_edit"] = {"1": (not start_frozen), "0": False}
+            c["calls"][2]["rg_edit"] = {"0": True, "2": False}
             out.append(c)
     # (25) float32 operands under a float64 process default (and every metadata check that goes with it)
     for opt in ("GN", "LM"):
